@@ -47,11 +47,19 @@ ASSUMPTIONS = ["real arithmetic (no rounding); theorems over R", "termination of
 
 EPS = 2.2204e-16
 BAND = Fraction(1, 10 ** 6)
-STATS = {"band": 0, "chol_contract_calls": 0, "chol_contract_max_residual": 0.0}
+STATS = {"band": 0, "chol_contract_calls": 0, "chol_contract_max_residual": 0.0, "solver_runs": 0, "runs_with_prune_step": 0,
+         "runs_with_inner_fix_step": 0, "runs_with_2plus_inner_fix_steps": 0, "outer_iterations": 0}
+def tally(m):
+    STATS["solver_runs"] += 1; STATS["outer_iterations"] += m.n_outer
+    if m.n_prune: STATS["runs_with_prune_step"] += 1
+    if m.n_inner: STATS["runs_with_inner_fix_step"] += 1
+    if m.n_inner >= 2: STATS["runs_with_2plus_inner_fix_steps"] += 1
 
 def extra_evidence():
     return {"skipped_in_band": STATS["band"], "cholesky_contract_calls": STATS["chol_contract_calls"],
-            "cholesky_contract_max_residual": STATS["chol_contract_max_residual"]}
+            "cholesky_contract_max_residual": STATS["chol_contract_max_residual"],
+            "branch_tally": {k: STATS[k] for k in ("solver_runs", "runs_with_prune_step", "runs_with_inner_fix_step",
+                                                   "runs_with_2plus_inner_fix_steps", "outer_iterations")}}
 
 # --------------------------------------------------------------------------------------------- exact mirror (margins only)
 def gauss(A, b):
@@ -69,7 +77,7 @@ def gauss(A, b):
 
 class Mirror:
     """exact re-execution of fnnls_cholesky that records the distance of every decision from its threshold"""
-    def __init__(self): self.margin = Fraction(10 ** 9)
+    def __init__(self): self.margin = Fraction(10 ** 9); self.n_prune = 0; self.n_inner = 0; self.n_outer = 0
     def dec(self, x, thr):
         self.margin = min(self.margin, abs(Fraction(x) - Fraction(thr)))
     def sub_solve(self, A, b, idx):
@@ -96,6 +104,7 @@ class Mirror:
             s = self.solve_on(A, b, P)
             if s is None: return None
             while self.need_fix(P, s, tau):
+                self.n_prune += 1
                 P = [p and not (s[i] <= tau) for i, p in enumerate(P)]
                 s = self.solve_on(A, b, P)
                 if s is None: return None
@@ -118,7 +127,9 @@ class Mirror:
             if x is None: return None
             for k, i in enumerate(Pin): s[i] = x[k]
             P[idmax] = True
+            self.n_outer += 1
             while self.need_fix(P, s, tau):
+                self.n_inner += 1
                 q = [P[i] and s[i] <= tau for i in range(n)]
                 ratios = [d[i] / (d[i] - s[i]) if d[i] != s[i] else Fraction(0) for i in range(n) if q[i]]
                 alpha = min(ratios)
@@ -154,6 +165,7 @@ def margin_pos_only(A, b, uses_p):
         for x in u: m.dec(x, 0)
         pinit = [x > 0 for x in u]
     m.fnnls(A, b, tau, pinit)
+    if m.margin >= BAND: tally(m)
     return m.margin
 
 # --------------------------------------------------------------------------------------------- Coq printing
@@ -222,13 +234,19 @@ def rand_entry(rng, quarters, lo=-3, hi=3):
     return Fraction(rng.randint(lo, hi))
 
 def rand_spd(rng, n, quarters=False, style=None):
-    style = style or rng.choice(["gram", "gram", "gram", "band", "diag", "lap"])
+    style = style or rng.choice(["gram", "gram", "corr", "corr", "corr", "band", "diag", "lap"])
     k = Fraction(rng.choice([1, 1, 2, 3]))
     if quarters and rng.random() < 0.3: k = Fraction(rng.choice([1, 2, 3]), 4)
     if style == "gram":
         m = rng.randint(max(1, n - 2), n + 3)
         Z = [[rand_entry(rng, quarters) for _ in range(n)] for _ in range(m)]
         A = [[sum(Z[r][i] * Z[r][j] for r in range(m)) for j in range(n)] for i in range(n)]
+    elif style == "corr":     # strongly correlated columns: entering variables push passive ones negative (inner loop is exercised)
+        m = rng.randint(2, n + 1)
+        base = [Fraction(rng.randint(1, 3)) for _ in range(n)]
+        Z = [[base[j] + Fraction(rng.randint(-1, 1)) for j in range(n)] for _ in range(m)]
+        A = [[sum(Z[r][i] * Z[r][j] for r in range(m)) for j in range(n)] for i in range(n)]
+        k = Fraction(rng.choice([1, 1, 2]), rng.choice([1, 2, 4]))
     elif style == "band":     # diagonally dominant tridiagonal (regularisation-like), signed off-diagonals
         A = [[Fraction(0)] * n for _ in range(n)]
         for i in range(n - 1):
@@ -306,7 +324,7 @@ def gen_inputs(tier, rng):
     for i in range(420 if big else 36):
         yield gen_mock_inversion(rng, i)
     # ---- public entry point: Imaging + Rectangular mappers (mapping and w-tilde formalisms)
-    for i in range(60 if big else 6):
+    for i in range(48 if big else 8):
         yield {"op": "real", "seed": rng.randrange(10 ** 9), "w_tilde": i % 2 == 0,
                "pos": rng.random() < 0.75, "pinit": rng.random() < 0.6, "force": rng.random() < 0.5, "two": i % 3 == 0, "mockreg": i % 4 < 2 or i % 3 == 0}
 
@@ -412,6 +430,7 @@ def run_fnnls(aa, inp):
         arg = np.array(st["index"], dtype=int)
     m = Mirror(); m.fnnls(A, b, Fraction(EPS * n), pinit)
     if m.margin < BAND: return band_row("fnnls")
+    tally(m)
     with CholWatch() as cw:
         res = out_vec(call(fnnls.fnnls_cholesky, flm(A), np.array(fl(b)), arg))
     coq = f"(KFnnls {cqm(A)} {cqv(b)} {cq(F(EPS))} {copt(pinit, cbools)} {cres_vec(res)})"
@@ -571,7 +590,8 @@ def run_real(aa, inp):
     K = [[float(rng.randint(-1, 3)) for _ in range(kw)] for _ in range(kh)]
     K[kh // 2][kw // 2] = float(rng.randint(2, 4))
     ds = aa.Imaging(data=aa.Array2D.no_mask(values=vals, pixel_scales=1.0), noise_map=aa.Array2D.no_mask(values=noise, pixel_scales=1.0),
-                    psf=aa.Kernel2D.no_mask(values=K, pixel_scales=1.0, normalize=False), use_normalized_psf=False)
+                    psf=aa.Kernel2D.no_mask(values=K, pixel_scales=1.0, normalize=False), use_normalized_psf=False,
+                    over_sampling=aa.OverSamplingDataset(pixelization=aa.OverSamplingUniform(sub_size=rng.choice([1, 2, 2]))))
     import io, contextlib, logging
     logging.disable(logging.CRITICAL)
     ds = ds.apply_mask(mask=mask)
@@ -595,6 +615,24 @@ def run_real(aa, inp):
     inv = aa.Inversion(dataset=ds, linear_obj_list=mappers, settings=settings)
     want = "InversionImagingWTilde" if inp["w_tilde"] else "InversionImagingMapping"
     row = inversion_rows(aa, inv, desc, st, "real:" + ("wtilde" if inp["w_tilde"] else "mapping"))
+    # the loop over unique mappings (first stage of the w-tilde mapped data), for each mapper, on the reconstruction just obtained
+    if row.get("coq"):
+        try: srec = np.asarray(inv.reconstruction, dtype=float)
+        except Exception: srec = None
+        if srec is not None:
+            from autoarray.inversion.inversion import inversion_util
+            off = 0
+            for mp in mappers:
+                um = mp.unique_mappings
+                so = srec[off:off + int(mp.params)]; off += int(mp.params)
+                out = inversion_util.mapped_reconstructed_data_via_image_to_pix_unique_from(
+                    data_to_pix_unique=um.data_to_pix_unique, data_weights=um.data_weights, pix_lengths=um.pix_lengths, reconstruction=so)
+                pix = clist([clist([cz(int(v)) for v in r]) for r in np.asarray(um.data_to_pix_unique)])
+                wts = cqm([[frac(x) for x in r] for r in np.asarray(um.data_weights, dtype=float)])
+                lens = clist([cnat(int(v)) for v in np.asarray(um.pix_lengths)])
+                Mq = cqm([[frac(x) for x in r] for r in np.asarray(mp.mapping_matrix, dtype=float)])
+                row.setdefault("extra_coq", []).append(
+                    f"(KUnique {pix} {wts} {lens} {cqv([frac(x) for x in so])} {Mq} {cqv([frac(x) for x in np.asarray(out, dtype=float)])})")
     if type(inv).__name__ != want:
         row["py_ok"] = False; row["detail"] = f"factory returned {type(inv).__name__}, expected {want}"
     logging.disable(logging.NOTSET)
